@@ -76,6 +76,7 @@ func init() {
 		}
 		var tab *table.Table
 		var adminAddr string
+		blocked := false
 		newTable := func() {
 			if tab != nil {
 				old := tab
@@ -90,13 +91,37 @@ func init() {
 			}
 			tab = table.New(tc)
 			adminAddr = ""
+			blocked = false
+		}
+		// an admin command or a dispatch that does not come back (deleting a grafanaNet route whose endpoint is down for good
+		// waits for a flush that cannot succeed; a blocking route behind a dead endpoint parks its caller) is not a crash: the
+		// rest of the case is skipped (later admin commands would queue behind the table lock), the process must stay alive
+		guarded := func(fn func()) bool {
+			done := make(chan struct{})
+			go func() { fn(); close(done) }()
+			select {
+			case <-done:
+				return true
+			case <-time.After(3 * time.Second):
+				blocked = true
+				emit("blocked")
+				return false
+			}
 		}
 		scanLinesCase(newTable, func(f []string, raw string) {
+			if blocked {
+				return
+			}
 			emit("> %s", f[0])
 			out.Flush()
 			switch f[0] {
 			case "cmd":
-				if err := imperatives.Apply(tab, subst(unhexArg(f[1]))); err != nil {
+				var err error
+				t := tab
+				if !guarded(func() { err = imperatives.Apply(t, subst(unhexArg(f[1]))) }) {
+					return
+				}
+				if err != nil {
 					emit("err")
 				} else {
 					emit("ok")
@@ -141,7 +166,8 @@ func init() {
 				c.Close()
 				emit("tel %d", n)
 			case "m":
-				tab.Dispatch(append([]byte(nil), unhexArg(f[1])...))
+				t := tab
+				guarded(func() { t.Dispatch(append([]byte(nil), unhexArg(f[1])...)) })
 			case "plain":
 				err := input.NewPlain(tab).Handle(bytes.NewReader(unhexArg(f[1])))
 				emit("plain %v", err != nil)
